@@ -24,7 +24,8 @@ LEVEL_TEXT = ("held (apart from the listed known findings) on N generated valid 
               "not covered.")
 LEVEL_NOTE = ("physical model: device powers are free, a meter reads the sum of its successors plus an unmetered load "
               "that is non-zero only at meters not dedicated to one device type; CHPs and batteries have no power "
-              "stream of their own (read as missing); graphs rejected by validate() are counted, not used")
+              "stream of their own (read as missing); graphs rejected by validate() are counted, not used"
+              ' Build phase: generators asked for sub-sets of the devices; batteries fed from two feeders; grid-meter fallback judged.')
 RULE = ("seeded random graphs: grid with one grid meter or 1-4 arbitrary successors, meters nested to depth 4, "
         "dedicated / mixed / load-only meters, battery inverters with 1-2 batteries, PV inverters, EV chargers, CHPs "
         "behind a CHP meter. distinct = canonical graph+assignment JSON; non-trivial = >=2 device classes present "
